@@ -150,6 +150,16 @@ def c07(run):
     cases = units.product_unit(run, fd, srcs, cfgs, tag="product", san=True)
     units.trace_unit(run, [c for c in cases if c.status == "ok"], rng, per_case=24 if q else 48, tag="rejtraces",
                      full_cover=40 if q else 100)
+    # the same REJECT scanners with their tables loaded from a file (yy_accept / yy_acclist are serialized separately)
+    tsrcs = srcs[:14 if q else 40]
+    tf = units.product_unit(run, fd, tsrcs, [dict(cfgs[0], tablesfile=True)], tag="tfile", san=True)
+    incode = {c.src.get("name"): c for c in cases if c.cfg.get("tbl") == "" and c.cfg.get("flavour", "nr") == "nr" and c.status == "ok"}
+    loaded = []
+    for b in tf:
+        a = incode.get(b.src.get("name"))
+        if a and b.status == "ok" and b.gen and b.gen.get("tables") and os.path.exists(b.gen["tables"]):
+            b.T = a.T; b.states = a.states; loaded.append(b)
+    units.trace_unit(run, loaded, rng, per_case=16 if q else 32, tag="rejloaded", full_cover=40 if q else 100)
     # REJECT found by flex in the action text (no %option reject), batch and interactive, NUL bytes in the input
     asrcs = fam(run, profiles=("nul", "lit", "trail", "mix"), core=3 if q else 5, rnd=10 if q else 20)
     acfgs = [{"tbl": "", "reject": "auto", "interactive": False}, {"tbl": "-Ca", "reject": "auto", "yymore": "auto", "interactive": True},
@@ -187,13 +197,16 @@ def c17(run):
     fd = build.build_flex()
     q = run.tier == "quick"
     srcs = fam(run, core=4 if q else 8, rnd=80)
-    for tagname, cfg in (("warn", {"tbl": ""}), ("warn-s", {"tbl": "", "extra_opts": "nodefault"})):
-        cases = units.product_unit(run, fd, srcs, [cfg], tag=tagname)
+    for tagname, cfg in (("warn", {"tbl": ""}), ("warn-s", {"tbl": "", "extra_opts": "nodefault"}),
+                         ("warn-words", {"tbl": "", "actionwords": True}), ("warn-s-words", {"tbl": "", "actionwords": True, "extra_opts": "nodefault"})):
+        cases = units.product_unit(run, fd, srcs if "words" not in tagname else srcs[:len(srcs) // 3], [cfg], tag=tagname)
         for c in cases:
             if c.status != "ok": continue
             nr = len(c.src["rules"])
             useful = {s[1] for s in c.states if s[1] > 0}
-            exact = not c.T["reject"]
+            # exactness is owed unless the rule set uses REJECT or variable trailing context: decided from the source where
+            # that is possible (no REJECT requested, no trailing context at all), from the artifact otherwise
+            exact = (not c.T["reject"]) or (not c.cfg.get("reject") and not units.has_var_trailing_syntax(c.src))
             for k in range(1, nr + 1):
                 warned = k in c.warn_unmatched
                 if warned and k in useful:
@@ -338,7 +351,7 @@ def c09(run):
 
     def nl_inputs(c, rng, n):
         base = units.cover_inputs(c, rng, n // 2)
-        al = c.alphabet + [10, 10, 10]
+        al = c.alphabet + [10, 10, 10, 0]      # (a NUL byte in front of a newline: text handled as a C string stops there)
         return base + [bytes(rng.choice(al) for _ in range(rng.randint(1, 14))) for _ in range(n - len(base))]
     units.trace_unit(run, [c for c in cases if c.status == "ok"], rng, per_case=14 if q else 28, tag="lineno",
                      inputs_fn=nl_inputs, bufsizes=(0, 0, 3, 8))
@@ -355,6 +368,7 @@ def newline_forms():
         "range": P.ccl([P.cr(9, 13)]), "posix": P.ccl([P.cp("space")]), "negposix": P.ccl([P.cnp("alpha")]),
         "dotall": P.grp(P.dot(), s=1), "dotall-x": P.grp(P.cat(c(97), P.dot()), s=1, x=1),
         "diff": P.diff(P.ccl([P.cb(97)], neg=True), P.ccl([P.cb(98)])), "union": P.union(P.ccl([P.cb(97)]), P.ccl([P.cb(nl)])),
+        "negclass-run": P.plus(P.ccl([P.cb(97)], neg=True)), "dotall-run": P.grp(P.cat(P.star(P.dot()), c(122)), s=1),   # long tokens: newlines behind other bytes (NUL)
         "def": P.ref(1), "star": P.cat(c(97), P.star(c(nl))), "alt": P.alt(c(97), c(nl)), "rep": P.rep(P.ccl([P.cb(nl), P.cb(98)]), 1, 2),
     }
     out = []
@@ -512,6 +526,18 @@ def c13(run):
             job["ops"] = stack_scripts(r, c, 1)[0]
         return job
     units.trace_unit(run, ok, rng, per_case=10 if q else 20, tag="histories", job_filter=jf, bufsizes=(0, 1, 2, 5, 16), maxops=40)
+    # (ii') tables loaded from a file that holds another scanner's set in front of ours (documented: sets may be concatenated):
+    # what yytables_fload() allocates while skipping it has to be handed back as well (LeakSanitizer at the end of the process)
+    tsrc = srcs[:3 if q else 8]
+    tin = units.product_unit(run, fd, tsrc, [{"tbl": "", "yymore": True}, {"tbl": "-Cf", "flavour": "r"}], tag="tincode", san=True)
+    ttf = units.product_unit(run, fd, tsrc, [{"tbl": "", "yymore": True, "tablesfile": True}, {"tbl": "-Cf", "flavour": "r", "tablesfile": True}], tag="tfile", san=True)
+    shared = []
+    for a, b in zip(tin, ttf):
+        if a.status == "ok" and b.status == "ok" and b.gen and b.gen.get("tables") and os.path.exists(b.gen["tables"]):
+            data = open(b.gen["tables"], "rb").read()
+            open(b.gen["tables"], "wb").write(data.replace(b"yytables\0", b"zztables\0") + data.replace(b"yytables\0", b"qqtables\0") + data)
+            b.T = a.T; b.states = a.states; shared.append(b)
+    units.trace_unit(run, shared, rng, per_case=4 if q else 10, tag="sharedtables", maxops=20)
     # (iii) %array capacity: text accumulated with yymore() up to and beyond YYLMAX must end in the documented fatal error
     P = rulesets.P
     big = rulesets.ruleset([rulesets.rule(P.plus(P.ccl([P.cr(97, 122)]))), rulesets.rule(P.chr_(10))], name="array-capacity")
@@ -618,9 +644,14 @@ def c16(run):
     directives = (b"#line 7 \"other.l\"\n%option noyywrap\n%pointer\n/* a comment */\n  /* indented */ static int n0;\n%top{\n#include <stdio.h>\n}\n"
                   b"%s A B\n%x C\nDIGIT  [0-9]\nID     [a-z][a-z0-9]*\n#line 40 \"third.l\"\n%%\n{DIGIT}+   n0++;\n<A,B>{ID}  n0 += 2;\n<C>.       ;\n.|\\n      ;\n%%\n"
                   b"int main(void) { while (yylex()) ; printf(\"%d\\n\", n0); return 0; }\n")
-    valid = [("directives", directives, None)] + valid
+    # start-condition scopes nested more deeply than there are conditions, each naming conditions of the enclosing ones again
+    # (legal: flex warns "specified twice"), with rules at every depth
+    depth = 12
+    scopes = (b"%option noyywrap\n%s A\n%x B C\n%%\n" + b"".join(b"<A,B,C>{\n" + (b"r%d  ;\n" % k) for k in range(depth))
+              + b"<B>x ;\n" + b"}\n" * depth + b"<*>.|\\n ;\n%%\nint main(void) { while (yylex()) ; return 0; }\n")
+    valid = [("directives", directives, None), ("scopes", scopes, None)] + valid
     # (a) every requested output x every write-failure mode, on valid input
-    for name, text, _ in valid[:3 if q else 10]:
+    for name, text, _ in valid[:4 if q else 10]:
         for want in (("scanner",), ("scanner", "header"), ("scanner", "tables"), ("scanner", "backup"), ("scanner", "header", "tables", "backup")):
             jobs.append(dict(kind="valid", name=name, text=text, args=[], want=want, faults={}))
             for k in want:
@@ -755,8 +786,9 @@ def c20(run):
         texts = list(toks) + core + pairs[:120]
     jobs = [(t, False, ()) for t in texts] + [(t, True, ()) for t in toks[:8]] + [(t, False, ("-Cf",)) for t in toks[:6]]
     jobs = [j + (False,) for j in jobs] + [(t, False, (), True) for t in toks[:10]]      # (the last ones: specification given as two input files)
+    jobs = [j + (False,) for j in jobs] + [(t, n, (), False, True) for t in list(toks) + (core if q else []) for n in ((False, True) if t in toks[:4] else (False,))]   # with a header file
     with cf.ThreadPoolExecutor(units.NCPU) as ex:
-        res = list(ex.map(lambda j: U.observe(fd, j[0], noline=j[1], cfgargs=j[2], split=j[3]), jobs))
+        res = list(ex.map(lambda j: U.observe(fd, j[0], noline=j[1], cfgargs=j[2], split=j[3], header=j[4]), jobs))
     obs = []; wds = []
     for o, wd in res:
         obs += o; wds.append(wd)
